@@ -35,6 +35,9 @@ class TLCResult:
         m = re.search(r"Error: Invariant (\S+) is violated", out)
         if m:
             self.violated = m.group(1)
+        m2 = re.search(r"Error: The invariant of (\S+) is equal to FALSE", out)      # constant-level invariant
+        if m2 and not self.violated:
+            self.violated = m2.group(1)
         m = re.search(r"Error: Action property (\S+) is violated", out)
         if m:
             self.violated = m.group(1)
